@@ -61,6 +61,8 @@ pub enum UOp {
     EventLoop(u32),
     /// repeat tick (yielding to the worker) until it reports not running (bounded)
     Drain(u32),
+    /// open a gate: a writer held inside its fill callback (IOp::PushHeld / ExtendHeld) may go on
+    Release(usize),
     /// take / clone / drop injector handles held by U (for C20), index into U's handle list
     TakeHandle,
     CloneHandle(usize),
@@ -75,6 +77,11 @@ pub enum IOp {
     Await(usize),
     Push(ItemSpec),
     Extend(Vec<ItemSpec>),
+    /// push whose fill callback blocks until gate `usize` is opened: the writer is held between
+    /// reserving its index and publishing the item, without costing the explorer a preemption
+    PushHeld(ItemSpec, usize),
+    /// extend whose callback blocks on the gate when it reaches the item with the given position
+    ExtendHeld(Vec<ItemSpec>, usize, usize),
     DropHandle,
 }
 
@@ -225,6 +232,12 @@ struct Shared {
 }
 
 fn do_push(exec: &Exec, shared: &Shared, thread: usize, inj: &Injector<Tracked>, gen: u32, items: &[ItemSpec], batch: bool) {
+    do_push_held(exec, shared, thread, inj, gen, items, batch, None)
+}
+
+/// `hold = Some((position, gate))`: the fill callback of the item at `position` parks until the gate is open.
+#[allow(clippy::too_many_arguments)]
+fn do_push_held(exec: &Exec, shared: &Shared, thread: usize, inj: &Injector<Tracked>, gen: u32, items: &[ItemSpec], batch: bool, hold: Option<(usize, usize)>) {
     let ids: Vec<u32> = items.iter().map(|i| i.id).collect();
     let t = exec.log(format!("push-call gen={gen} ids={ids:?}"), 0);
     shared.obs.lock().unwrap().push(Obs::PushCall { t, thread, gen, ids: ids.clone() });
@@ -232,13 +245,24 @@ fn do_push(exec: &Exec, shared: &Shared, thread: usize, inj: &Injector<Tracked>,
     if batch {
         let before = inj.injected_items();
         let lookup: std::collections::HashMap<u32, &'static str> = items.iter().map(|i| (i.id, i.text)).collect();
-        inj.extend(items.iter().map(|i| Tracked { key: ItemData { gen, id: i.id } }).collect::<Vec<_>>().into_iter(), |d, cols| fill(lookup[&d.key.id], cols));
+        let held_id = hold.map(|(pos, _)| items[pos].id);
+        inj.extend(items.iter().map(|i| Tracked { key: ItemData { gen, id: i.id } }).collect::<Vec<_>>().into_iter(), |d, cols| {
+            if Some(d.key.id) == held_id {
+                exec.point("I:held", hold.unwrap().1 as u64, Wait::Slot(hold.unwrap().1));
+            }
+            fill(lookup[&d.key.id], cols)
+        });
         let _ = before;
         first_idx = None;
     } else {
         let it = &items[0];
         let text = it.text;
-        first_idx = Some(inj.push(Tracked { key: ItemData { gen, id: it.id } }, move |_, cols| fill(text, cols)));
+        first_idx = Some(inj.push(Tracked { key: ItemData { gen, id: it.id } }, move |_, cols| {
+            if let Some((_, gate)) = hold {
+                exec.point("I:held", gate as u64, Wait::Slot(gate));
+            }
+            fill(text, cols)
+        }));
     }
     // the call has returned: every item of the call must be visible now (and where push said)
     let mut visible = ids.iter().all(|id| (0..UNIVERSE).any(|i| inj.get(i).map_or(false, |it| it.data.key.id == *id && it.data.key.gen == gen)));
@@ -412,6 +436,9 @@ pub fn run_scenario(scn: &Scenario, prefix: &[usize]) -> RunResult {
                             exec.point("U:drain_wait", 0, Wait::WorkerLock);
                         }
                     }
+                    UOp::Release(gate) => {
+                        exec.fill_slot(*gate);
+                    }
                     UOp::TakeHandle => {
                         if let Some(n) = nucleo.as_ref() {
                             held.push(Some((n.injector(), gen)));
@@ -501,6 +528,18 @@ pub fn run_scenario(scn: &Scenario, prefix: &[usize]) -> RunResult {
                         exec.point("I:op", 0, Wait::None);
                         if let Some((h, g)) = &handle {
                             do_push(&exec, &shared, tid, h, *g, items, true);
+                        }
+                    }
+                    IOp::PushHeld(it, gate) => {
+                        exec.point("I:op", 0, Wait::None);
+                        if let Some((h, g)) = &handle {
+                            do_push_held(&exec, &shared, tid, h, *g, std::slice::from_ref(it), false, Some((0, *gate)));
+                        }
+                    }
+                    IOp::ExtendHeld(items, pos, gate) => {
+                        exec.point("I:op", 0, Wait::None);
+                        if let Some((h, g)) = &handle {
+                            do_push_held(&exec, &shared, tid, h, *g, items, true, Some((*pos, *gate)));
                         }
                     }
                     IOp::DropHandle => {
